@@ -327,6 +327,10 @@ class Engine:
                 return v.t
             if to_sort(ty, self.reg) == v.t.sort():
                 return v.t
+            if v.ty.kind == 'opt' and ty.kind != 'opt' and to_sort(v.ty.args[0], self.reg) == to_sort(ty, self.reg):
+                # Optional value where a plain one is required: its content (call sites establish `is not None`, see
+                # Verifier.apply_contract; in specifications the content of None is unspecified)
+                return opt_sort(to_sort(ty, self.reg)).val(v.t)
             if ty.kind == 'int' and v.ty.kind == 'bool':
                 return z3.If(v.t, z3.IntVal(1), z3.IntVal(0))
             raise Outside("cannot coerce %r to %r" % (v, ty))
